@@ -19,6 +19,8 @@ func main() {
 	gen1.Run(run)
 	gen2.Lenient(run) // lenient / strict client over HTTP
 	gen1.Lenient(run)
+	gen2.LenientEnvelopes(run)
+	gen1.LenientEnvelopes(run)
 	run.Set("generations", []string{"v2", "root"})
 	run.Finish()
 }
